@@ -1,17 +1,65 @@
-(* C03 -- property theorems; see DESIGN.md section 6.  Grows as proofs are completed. *)
-From PJ.Model Require Import Base Lookup Terms Encoder Api.
-From PJ.Proofs Require Import Mirror MirrorRun EncoderProofs.
+(* C03 -- every emitted stream is valid Jelly for an independent decoder. *)
+From PJ.Model Require Import Base Lookup Terms Encoder Streams Spec Api.
+From PJ.Proofs Require Import Mirror MirrorRun EncoderProofs Den EncTerm EncStmt EncStream.
 
-(* The split of an IRI into prefix and name loses nothing (what the reader concatenates is the IRI). *)
-Theorem C03_split_iri_lossless : forall iri : str, let '(p, n) := split_iri iri in p ++ n = iri.
-Proof. exact split_iri_app. Qed.
-Print Assumptions C03_split_iri_lossless.
+(* For EVERY input and every configuration the constructors accept -- any flow kind and frame size,
+   any table sizes from the smallest (names >= 8) up to 4096 -- whatever the generic TripleStream
+   hands out without raising is accepted by the Spec referee (options first, every entry id and
+   reference in range and defined earlier with the intended value, zero forms by the delta rules,
+   complete first statement and quoted triples, row kinds matching the physical type) and denotes
+   exactly the normalised input statements, in order.  No "fits" premise: when a statement does not
+   fit a table the writer raises (C18). *)
+Theorem C03_encoder_valid_triples :
+  forall (o : soptions) (s s' : stream) (d : sdata) (evs : list tev),
+    stream_new TripleStream Generic o = Ok s -> cfg_ok o (st_logical s) ->
+    p_nd (so_params o) = false -> fl_rows (st_flow s) = [] ->
+    triples_stream_frames d s = (s', evs) -> raised evs = None ->
+    run (flat_map f_rows (emitted evs)) = Valid (flat_map event_of_triple (d_stmts d)).
+Proof. exact triples_stream_valid. Qed.
+Print Assumptions C03_encoder_valid_triples.
 
-(* Every index the writer emits for a key resolves on the reader to that key, for every history
-   of hits, misses and evictions of each table (the lookup core of the round trip; see C05). *)
+Theorem C03_encoder_valid_quads :
+  forall (o : soptions) (s s' : stream) (d : sdata) (evs : list tev),
+    stream_new QuadStream Generic o = Ok s -> cfg_ok o (st_logical s) ->
+    p_nd (so_params o) = false -> fl_rows (st_flow s) = [] ->
+    quads_stream_frames d s = (s', evs) -> raised evs = None ->
+    run (flat_map f_rows (emitted evs)) = Valid (flat_map event_of_quad (d_stmts d)).
+Proof. exact quads_stream_valid. Qed.
+Print Assumptions C03_encoder_valid_quads.
+
+(* One statement from any state that satisfies the inter-statement invariant: the induction step. *)
+Theorem C03_statement_valid :
+  forall (terms : list term) (t t' : tenc) (rp rp' : repeated) (rows : list row) (ss : sstate),
+    JS t rp ss -> phys ss = 1 ->
+    encode_triple Generic terms t rp = Ok (t', rp', rows) ->
+    exists s p o rest ss',
+      terms = s :: p :: o :: rest /\
+      steps rows ss = SOk (ss', [ETriple (norm s) (norm p) (norm o)]) /\
+      JS t' rp' ss' /\ s_opts ss' = s_opts ss /\ s_open ss' = s_open ss.
+Proof. exact encode_triple_valid. Qed.
+Print Assumptions C03_statement_valid.
+
+(* the lookup core *)
 Theorem C03_lookup_indices_resolve :
   forall (rule : lk_rule) (size : N) (keys : list str),
     1 <= size ->
     Forall2 (fun k o => exists obs, o = Some obs /\ obs_ok size k obs) keys (api_lookup rule size keys).
 Proof. exact api_lookup_ok. Qed.
 Print Assumptions C03_lookup_indices_resolve.
+
+(* non-vacuity: a stream with evictions in a 1-slot prefix table is produced and is Valid *)
+Example tiny_tables_valid :
+  let o := {| so_flow := None; so_frame_size := 2; so_logical := 1;
+              so_params := {| p_gen := true; p_star := true; p_delimited := true; p_nd := false; p_name := [] |};
+              so_maxn := 8; so_maxp := 1; so_maxd := 0 |} in
+  let d := {| d_is_sink := false; d_namespaces := [];
+              d_stmts := [[TIri [104;47;97]; TIri [104;47;98]; TLit [120] None None];
+                          [TIri [105;47;97]; TIri [105;47;98]; TIri [105;47;97]];
+                          [TIri [105;47;97]; TIri [104;47;98]; TBnode [98]]] |} in
+  match stream_new TripleStream Generic o with
+  | Ok s => let '(_, evs) := triples_stream_frames d s in
+            raised evs = None /\ (length (emitted evs) >= 3)%nat /\
+            run (flat_map f_rows (emitted evs)) = Valid (flat_map event_of_triple (d_stmts d))
+  | Err _ => False
+  end.
+Proof. vm_compute. repeat split; auto. Qed.
